@@ -200,6 +200,13 @@ fn plant(src: &mut Src) -> Planted {
         ("sort_by(`[[\"b\"], [\"a\"]]`, &map(&length(@), sort_by(@, &to_string(@))))", "sort_by(", "InvalidReturnType"),
         ("sort_by(`[[1], [2]]`, &map(&type(@), @)) | nope(@)", "sort_by(", "InvalidReturnType"),
         ("map(&sort_by(@, &to_string(abs(@))), `[[2, 1]]`) | sort_by(@, &to_array(@))", "sort_by(@, &to_array", "InvalidReturnType"),
+        // a user function that runs a reference through the built-in map, does not care whether
+        // that worked, and then fails on its own (JmespathError::from_ctx): the error is its own call's
+        ("attempt(&abs(`\"x\"`), xs)", "attempt(", "InvalidType"),
+        ("attempt(&abs(@), xs)", "attempt(", "InvalidType"),
+        ("attempt(&length(@), xs) || `1`", "attempt(", "InvalidType"),
+        ("attempt(&nope(@), xs)", "attempt(", "InvalidType"),
+        ("[abs(`1`), attempt(&sort_by(@, &abs(@)), `[[1]]`)]", "attempt(", "InvalidType"),
     ];
     // a by-function whose reference runs a random chain of *successful* steps (slices, indexes
     // back into arrays, projections, nested calls and by-functions) on each element and
@@ -223,8 +230,9 @@ fn plant(src: &mut Src) -> Planted {
     let paren = at + marker.find('(').unwrap_or(marker.len() - 1);
     let (flo, fhi) = if kind == "InvalidSlice" { (at, at + marker.len() - 1) } else { (paren, paren) };
     let slice_fault = kind == "InvalidSlice";
-    let custom_route = src.chance(30);
-    let (pre, post, in_expref): (String, String, bool) = match if custom_route { 15 + src.below(5) } else { src.below(15) } {
+    let needs_custom = ftext.contains("attempt(");
+    let custom_route = src.chance(30) || needs_custom;
+    let (pre, post, in_expref): (String, String, bool) = match if needs_custom { [0usize, 1, 3, 5, 15, 18][src.below(6)] } else if custom_route { 15 + src.below(5) } else { src.below(15) } {
         // the same two as functions declared with a signature (CustomFunction)
         18 => ("applyc(&".into(), ", @)".into(), true),
         19 => ("eachc(&".into(), ", xs)".into(), true),
@@ -277,6 +285,18 @@ fn custom_search(text: &str, doc: &str) -> ImpOut {
             Box::new(|args: &[Rcvar], ctx: &mut Context<'_>| match args.first().map(|a| &**a) {
                 Some(Variable::Expref(ast)) => jmespath::Expression::new(ctx.expression, ast.clone(), ctx.runtime).search(args.get(1).cloned().unwrap_or_else(|| Rcvar::new(Variable::Null))),
                 _ => Ok(Rcvar::new(Variable::Null)),
+            }),
+        );
+        rt.register_function(
+            "attempt",
+            Box::new(|args: &[Rcvar], ctx: &mut Context<'_>| {
+                if let Some(f) = ctx.runtime.get_function("map") {
+                    let _ = f.evaluate(args, ctx);
+                }
+                Err(jmespath::JmespathError::from_ctx(
+                    ctx,
+                    jmespath::ErrorReason::Runtime(jmespath::RuntimeError::InvalidType { expected: "something else".to_owned(), actual: "this".to_owned(), position: 0 }),
+                ))
             }),
         );
         rt.register_function(
